@@ -344,3 +344,22 @@ def engineOf (tbl : Option Nat → Nat → Option C05.Repl) (prb : Option Nat) :
 def engineOfProgram (p : C05.Program) : Engine := engineOf (C05.table p) p.rb
 
 end C14
+
+namespace C14
+
+/-- The synchronisation loop with the exit test written WITHOUT `post_break_iter.is_separation_point()`
+(mutant 25 of the sweep). Not part of the code: it exists to state why that mutant is equivalent
+(`sync_post_sep_redundant`). -/
+def syncNoPostSep : Nat → Sync → Option Sync
+  | 0, _ => none
+  | fuel + 1, st =>
+    if !st.pclb && st.postCP == st.cp && st.main.sep then some st
+    else if st.pclb || decide (st.postCP < st.cp) then
+      let a := advance st.post
+      syncNoPostSep fuel { st with pclb := false, post := a.2, postCP := st.postCP + countChars a.1,
+                                   postBreak := st.postBreak ++ a.1 }
+    else
+      let a := advance st.main
+      syncNoPostSep fuel { st with main := a.2, cp := st.cp + countChars a.1, pushed := st.pushed ++ a.1 }
+
+end C14
